@@ -137,7 +137,12 @@ def extract_default(
         default = default[:-offset] if offset else default
 
     if typ is not None and typ in simple_types and default not in none_types:
-        lit = literal_eval(default)
+        try:
+            lit = literal_eval(default)
+        except (ValueError, SyntaxError):
+            if typ != "str":
+                raise
+            lit = default  # an unquoted string is not a Python literal: it is the value as it stands
         default = (
             "```{}```".format(lit)
             if isinstance(default, ast.AST)
